@@ -78,6 +78,10 @@ def run_property(prop, tier, seed, prop_file, corr_mod, check_fn, profiles, n_qu
                 elif "result" in r:
                     k = "%s:%s" % (r["op"], r["result"])
                     cmds[k] = cmds.get(k, 0) + 1
+        kinds = {}
+        for o in outs:
+            for e in o["events"]:
+                kinds[e["kind"]] = kinds.get(e["kind"], 0) + 1
         rejected = [i for i, r in enumerate(results) if not r[0]]
         hits = [(i, f) for i, r in enumerate(results) for f in r[2]]
         unknown = [(i, f) for i, f in hits if not (f[3] and finding_id in known_listed)]
@@ -87,7 +91,7 @@ def run_property(prop, tier, seed, prop_file, corr_mod, check_fn, profiles, n_qu
             "rule": "random concurrent scenarios (requests, redeploys, pause/stop/resume, rollout commands, virtual-clock sleeps, "
                     "goroutines parked/released at yield points %s) plus the hand-forced schedules of the recorded findings; each "
                     "scenario yields one event trace; non-trivial = distinct scenario" % ", ".join(sorted({p for pr in profiles for p in pr.get("points", m5.POINTS)})),
-            "events": n_events, "request_status_mix": statuses, "command_mix": cmds,
+            "events": n_events, "event_kind_mix": kinds, "request_status_mix": statuses, "command_mix": cmds,
             "samples": [scenarios[0]["steps"][:12]],
             "traces_validated_against_impl": len(outs),
             "correspondence": {"traces": len(outs), "accepted_by_model": len(results) - len(rejected), "rejected": len(rejected)},
